@@ -1,0 +1,65 @@
+//! Verification hooks, only compiled with `--cfg rasn_verif`.
+//!
+//! A thread-local sink records one JSON line per pipeline step so that recorded executions can
+//! be validated against a specification. Nothing is recorded unless `enable()` was called on
+//! the current thread.
+use std::cell::RefCell;
+
+thread_local! {
+    static SINK: RefCell<Option<Vec<String>>> = const { RefCell::new(None) };
+    static SEQ: RefCell<u64> = const { RefCell::new(0) };
+}
+
+/// Starts recording on the current thread.
+pub fn enable() {
+    SINK.with(|s| *s.borrow_mut() = Some(Vec::new()));
+    SEQ.with(|s| *s.borrow_mut() = 0);
+}
+
+/// Stops recording on the current thread and returns the recorded events.
+pub fn take() -> Vec<String> {
+    SINK.with(|s| s.borrow_mut().take().unwrap_or_default())
+}
+
+/// Records an event `{"seq":n,"hook":"<hook>",<fields>}`; `fields` is only evaluated while recording.
+pub(crate) fn emit(hook: &str, fields: impl FnOnce() -> String) {
+    SINK.with(|s| {
+        if let Some(events) = s.borrow_mut().as_mut() {
+            let seq = SEQ.with(|q| {
+                let mut q = q.borrow_mut();
+                *q += 1;
+                *q
+            });
+            let fields = fields();
+            events.push(if fields.is_empty() {
+                format!("{{\"seq\":{seq},\"hook\":\"{hook}\"}}")
+            } else {
+                format!("{{\"seq\":{seq},\"hook\":\"{hook}\",{fields}}}")
+            });
+        }
+    })
+}
+
+/// A JSON string literal.
+pub(crate) fn s(value: &str) -> String {
+    let mut out = String::with_capacity(value.len() + 2);
+    out.push('"');
+    for c in value.chars() {
+        match c {
+            '"' => out.push_str("\\\""),
+            '\\' => out.push_str("\\\\"),
+            '\n' => out.push_str("\\n"),
+            '\r' => out.push_str("\\r"),
+            '\t' => out.push_str("\\t"),
+            c if (c as u32) < 0x20 => out.push_str(&format!("\\u{:04x}", c as u32)),
+            c => out.push(c),
+        }
+    }
+    out.push('"');
+    out
+}
+
+/// A JSON array of string literals.
+pub(crate) fn list<'a>(values: impl Iterator<Item = &'a str>) -> String {
+    format!("[{}]", values.map(s).collect::<Vec<_>>().join(","))
+}
